@@ -237,17 +237,24 @@ pub fn run(tape: &[u8], ctx: &mut Ctx) {
 		bad[off] = if bad[off] == newbyte { newbyte.wrapping_add(1) } else { newbyte };
 		for via_reader in [false, true] {
 			evals += 1;
-			let r = if via_reader {
+			// non-collecting target with an event budget: a corrupted element count over
+			// zero-byte elements legitimately runs up to max_seq_size (1e9 by default)
+			if via_reader {
 				let mut rd = ChunkedReader::uniform(&bad, chunk);
 				rd.call_budget = 50_000 + 200 * bad.len() as u64;
-				read_bufread(&env, &h.case.schema, rd, &cfg, max_calls)
-			} else {
-				read_slice(&env, &h.case.schema, &bad, &cfg, max_calls)
-			};
-			if let Ok((nexts, _)) = r {
-				if nexts.iter().any(|n| matches!(n, Next::Err(e) if e.contains("read call budget exceeded"))) {
+				let exceeded;
+				{
+					let r = serde_avro_fast::object_container_file_encoding::Reader::from_reader(&mut rd);
+					if let Ok(mut r) = r {
+						let _ = drive_reader_digest(&mut r, max_calls, 200_000);
+					}
+				}
+				exceeded = rd.budget_exceeded;
+				if exceeded {
 					ctx.violation("C17/corruption-unbounded-reads", format!("schema {} {outline}: byte {off} set to {newbyte:#x}", h.case.json));
 				}
+			} else if let Ok(mut r) = serde_avro_fast::object_container_file_encoding::Reader::from_slice(&bad) {
+				let _ = drive_reader_digest(&mut r, max_calls, 200_000);
 			}
 		}
 	}
